@@ -53,7 +53,8 @@ GP_STAGES = [("polyply.src.gen_itp", "load_ff_library"),
              ("vermouth.gmx.itp", "write_molecule_itp@1"),
              ("vermouth.gmx.itp", "write_molecule_itp@2"),
              ("vermouth.gmx.itp", "write_molecule_itp@3"),
-             ("vermouth.file_writer", "DeferredFileWriter.write")]
+             ("vermouth.file_writer", "DeferredFileWriter.write"),
+             ("polyply.src.gen_itp", "LOGGER.log@model")]
 GC_STAGES = [("polyply.src.gen_coords", "Topology.from_gmx_topfile"),
              ("polyply.src.topology", "Topology.preprocess"),
              ("polyply.src.gen_coords", "_check_molecules"),
@@ -115,6 +116,21 @@ def inject(stage, fault="runtime"):
     modname, attr = stage
     mod = importlib.import_module(modname)
     k = None
+    if attr == "LOGGER.log@model":
+        # the reporting loop after the final write: LOGGER.log(..., type='model')
+        logger = mod.LOGGER
+        real_log = logger.log
+
+        def log(level, msg, *a, **kw):
+            if kw.get("type") == "model":
+                raise Exc("injected in the reporting loop")
+            return real_log(level, msg, *a, **kw)
+        logger.log = log
+        try:
+            yield
+        finally:
+            del logger.log
+        return
     if "@" in attr:
         attr, k = attr.split("@")
         k = int(k)
@@ -192,8 +208,11 @@ def run_prog(prog, d, out, tag):
                 if prog == "gen_params":
                     from polyply.src.gen_itp import gen_params
                     ffp = d / f"ff_{tag}.ff"
-                    ffp.write_text(F.render_ff(dict(blocks=DNA, links=[DNA_LINK], mods={})))
-                    gen_params(name="mol", outpath=out, inpath=[ffp], seq=["DA5:1", "DG:1", "DT3:1"], dsdna=True)
+                    ffp.write_text("[ citations ]\nverif2026\n\n" + F.render_ff(dict(blocks=DNA, links=[DNA_LINK], mods={})))
+                    bib = d / f"cite_{tag}.bib"
+                    bib.write_text("@article{verif2026,\nauthor={Checker, A and Model, B},\ntitle={Bounded exhaustive exploration},\n"
+                                   "journal={J Verif},\nyear={2026},\nvolume={1},\ndoi={10.0000/verif}\n}\n")
+                    gen_params(name="mol", outpath=out, inpath=[ffp, bib], seq=["DA5:1", "DG:1", "DT3:1"], dsdna=True)
                 elif prog == "gen_coords":
                     sysd = dict(types=["CH3", "W"], molecules=[("CH3", 1), ("W", 1)], box=[3.0, 3.0, 3.0],
                                 grid=[[0.5, 0.5, 0.5], [2.0, 2.0, 2.0], [1.0, 2.5, 1.5]])
@@ -220,7 +239,8 @@ def run_prog(prog, d, out, tag):
 
 DNA = {nm: dict(nrexcl=1, atoms=[("BB", "D" + nm[1:], 0.0, 72.0, 1)], inter={})
        for nm in ["DA", "DT", "DG", "DC", "DA5", "DT5", "DG5", "DC5", "DA3", "DT3", "DG3", "DC3"]}
-DNA_LINK = dict(resname=list(DNA), inter={"bonds": [F.I(["BB", "+BB"], ["1", "0.3", "50"])]})
+DNA_LINK = dict(resname=list(DNA), inter={"bonds": [F.I(["BB", "+BB"], ["1", "0.3", "50"])]},
+                log=[("info", "backbone bond added by the generic nucleotide link")])
 EXT = {"gen_params": "out.itp", "gen_coords": "out.gro", "gen_seq": "out.json"}
 
 
@@ -266,10 +286,17 @@ def run_case(case):
             reached = isinstance(exc, INJECTED)
             if exc is None:
                 # the stage is not on the path of this input (e.g. no ligands): nothing to judge
-                return dict(evals=1, keys=[], violations=[], stats={"stage_not_reached": 1})
+                return dict(evals=1, keys=[], violations=[], stats={"stage_not_reached": 1, "stages_not_reached": [f"{prog}:{stage[1]}"]})
             if not reached:
                 bad("harness-injection", f"unexpected {type(exc).__name__}: {exc}", ["harness"])
-            if after != before:
+            post_write = stage[1] == "LOGGER.log@model"
+            if post_write:
+                # this stage comes after the final write: either the complete output (with backup) is in place already, or -
+                # if an implementation reports before it writes - nothing was touched; a later run must not change either
+                delivered = EXT[prog] in after and after != before and complete(prog, out)
+                if after != before and not delivered:
+                    bad("no-output-touched-on-failure", f"listing changed to an incomplete state: before {before} after {after}", ["stage:" + stage[1]])
+            elif after != before:
                 bad("no-output-touched-on-failure", f"listing changed: before {before} after {after}", ["stage:" + stage[1]])
             if stage[1] == "DeferredFileWriter.write":
                 # the final write itself failed: this is not a stage *before* writing, only the immediate effect is judged
@@ -283,13 +310,13 @@ def run_case(case):
             if exc2 is not None:
                 bad("later-run-unaffected-by-failed-run", f"{type(exc2).__name__}: {exc2}", ["stage:" + stage[1]])
             else:
-                expect = dict(before)
+                expect = dict(after) if stage[1] == "LOGGER.log@model" else dict(before)
                 if ("second_" + EXT[prog]) not in later or not complete(prog, out2):
                     bad("later-run-unaffected-by-failed-run", f"second run incomplete: {sorted(later)}", ["stage:" + stage[1]])
                 later.pop("second_" + EXT[prog], None)
                 if later != expect:
                     tags = ["stage:" + stage[1], "stale-deferred-write"]
-                    bad("no-output-touched-on-failure", f"after a later successful run the failed run's path changed: before {before} now {later}", tags)
+                    bad("no-output-touched-on-failure", f"after a later successful run the failed run's path changed: right after the failure {expect} now {later}", tags)
         H.drain_deferred()
     key = [f"{prog}:{stage}:{pstate}"] if pstate != "absent" else []
     return dict(evals=1, keys=key, violations=viols, stats={"faults_injected": int(stage is not None)},
